@@ -22,7 +22,7 @@ worker() {
   export VERIF_REPO=$wt VERIF_CACHE=$cache VERIF_PROCS=${VERIF_PROCS:-6}
   for name in "$@"; do
     if [[ $name == benign/* ]]; then
-      n=${name#benign/}; diff=seeded/benign/refactor$n.diff; ids=$(grep -oE 'C[0-9]{2}' seeded/benign/refactor$n.txt | sort -u | tr '\n' ' ')
+      n=${name#benign/}; diff=seeded/benign/refactor$n.diff; ids=$(python3 -c "import json; print(' '.join(json.load(open('seeded/benign/props.json'))['$n']))")
     else
       diff=seeded/$name/patch.diff; ids=${name%%-*}
     fi
